@@ -1,5 +1,52 @@
-From PV Require Import Lib.Base Model.Prng Model.Core.
+(* C16 -- shift-null tests impute potential outcomes; statements only (proofs in Proofs/CoreProofs.v). *)
+From PV Require Import Lib.Base Model.Prng Model.Core Proofs.CoreProofs.
 Open Scope Q_scope.
-Theorem C16_placeholder_pvalue_def : forall c H reps, perm_pvalue c H reps = (qn H + qn c) / (qn reps + qn c).
-Proof. reflexivity. Qed.
-Print Assumptions C16_placeholder_pvalue_def.
+
+(* potential_outcomes: first column (x, f(y)), second column (finv(x), y), treated units first;
+   pairs that are not inverse to each other on 1..5 are rejected *)
+Theorem C16_potential_outcomes_columns : forall x y f finv pot,
+  potential_outcomes x y f finv = Ok pot ->
+  pot = combine (x ++ map (apply_fn f) y) (map (apply_fn finv) x ++ y).
+Proof. intros x y f finv pot H. exact (proj2 (potential_outcomes_columns x y f finv pot H)). Qed.
+Print Assumptions C16_potential_outcomes_columns.
+
+Theorem C16_potential_outcomes_rejects_non_inverse : forall x y f finv,
+  inverse_ok f finv = false -> potential_outcomes x y f finv = Err AssertionError.
+Proof. exact potential_outcomes_rejects. Qed.
+Print Assumptions C16_potential_outcomes_rejects_non_inverse.
+
+(* the constant d and the pair (u -> u+d, u -> u-d) give identical results (same tape) *)
+Theorem C16_scalar_eq_pair : forall x y s a reps plus1 d t,
+  two_sample_shift x y s a reps plus1 (Scalar d) t =
+  two_sample_shift x y s a reps plus1 (Pair (AddC d) (AddC (- d))) t.
+Proof. exact shift_scalar_eq_pair. Qed.
+Print Assumptions C16_scalar_eq_pair.
+
+(* a missing shift or a single callable raises ValueError *)
+Theorem C16_bad_shift_rejected : forall x y s a reps plus1 t,
+  two_sample_shift x y s a reps plus1 NoShift t = Err ValueError /\
+  two_sample_shift x y s a reps plus1 SingleCallable t = Err ValueError.
+Proof. exact shift_bad_input. Qed.
+Print Assumptions C16_bad_shift_rejected.
+
+(* the shift test is two_sample_core on the potential-outcome table: its p-value obeys the same formula
+   and it draws exactly like two_sample (rearrangements and tape use do not depend on the table) *)
+Theorem C16_shift_pvalue_formula : forall x y s a reps plus1 d t r,
+  two_sample_shift x y s a reps plus1 (Scalar d) t = Ok r ->
+  length (dist r) = reps /\ pval r == pv_textbook a (cc plus1) (tstat r) (dist r).
+Proof. intros x y s a reps plus1 d t r H. exact (two_sample_core_pvalue _ _ _ _ _ _ _ _ H). Qed.
+Print Assumptions C16_shift_pvalue_formula.
+
+Theorem C16_shift_draws_like_two_sample : forall s s' pot pot' nx nx' reps rr t,
+  match core_loop s pot nx rr reps t, core_loop s' pot' nx' rr reps t with
+  | Ok (_, a, t1), Ok (_, a', t2) => a = a' /\ t1 = t2
+  | Err e, Err e' => e = e'
+  | _, _ => False
+  end.
+Proof. intros. apply core_loop_data_independent. Qed.
+Print Assumptions C16_shift_draws_like_two_sample.
+
+Example C16_nonvacuous :
+  potential_outcomes [1; 2] [5] (AddC (7 # 2)) (AddC (- (7 # 2))) = Ok [(1, 1 + - (7 # 2)); (2, 2 + - (7 # 2)); (5 + (7 # 2), 5)]
+  /\ inverse_ok (AddC 1) (AddC 1) = false.
+Proof. vm_compute. split; reflexivity. Qed.
